@@ -420,7 +420,20 @@ func (e *Entry) WithTTL(d time.Duration) *Entry {
 }
 func (e *Entry) WithDiscard() *Entry { return e }
 
+// FailSetAt, when positive, makes the FailSetAt-th Set/Delete of an update transaction from now on fail
+// with ErrInjected (in-memory engine only): an engine-side failure inside a transaction body, such as
+// ErrTxnTooBig or an I/O error of the real engine. It disarms itself after firing.
+var FailSetAt int
+
+var ErrInjected = errors.New("injected engine failure inside a transaction")
+
 func (t *Txn) modify(key []byte, val []byte, del bool) error {
+	if FailSetAt > 0 && t.update && !t.discarded {
+		FailSetAt--
+		if FailSetAt == 0 {
+			return ErrInjected
+		}
+	}
 	switch {
 	case t.discarded:
 		return ErrDiscardedTxn
